@@ -608,6 +608,63 @@ def final_C18(seq, cfg, ctx, build_device, rng):
 
 
 # --------------------------------------------------------------------------
+def final_C09(seq, cfg, ctx, build_device, rng):
+    """copies made through build / switch_register to an identical register / serialise + deserialise have the identical timeline,
+    and are independent of the original: a later successful call on either side changes only that side."""
+    out = []
+    if seq.is_parametrized() or not seq._schedule or (len(seq._calls) % 5) > 1:      # (two histories in five: the copies are comparatively slow)
+        return out
+    base = _timeline(seq)
+    copies = []
+    try:
+        copies.append(("build()", seq.build(**{name: 1 for name in seq.declared_variables})))
+    except Exception as ex:
+        out.append((f"build() of a built sequence raised {ex!r}"[:200], {}))
+    try:
+        from pulser import Register
+        copies.append(("switch_register(identical register)", seq.switch_register(Register({q: (float(p[0]), float(p[1])) for q, p in ctx["reg"].qubits.items()}))))
+    except Exception as ex:
+        out.append((f"switch_register to an identical register raised {ex!r}"[:200], {}))
+    try:
+        from pulser import Sequence as _S
+        s_ = seq.to_abstract_repr()
+        copies.append(("deserialise(serialise())", _S.from_abstract_repr(s_)))
+    except Exception:
+        pass        # (what can be serialised is C04's business)
+    for how, cp in copies:
+        if how != "deserialise(serialise())" and _timeline(cp) != base:
+            out.append((f"the copy made through {how} has a different timeline", {"how": how}))
+        if how == "deserialise(serialise())":
+            a = {n: [(x[1], x[2], x[3]) for x in v] for n, v in _timeline(cp).items()} if isinstance(_timeline(cp), dict) else None
+            b = {n: [(x[1], x[2], x[3]) for x in v] for n, v in base.items()} if isinstance(base, dict) else None
+            if a is not None and a != b:
+                out.append((f"the copy made through {how} has different slot boundaries / targets", {"how": how}))
+    # independence (both directions), through the public API only
+    for how, cp in copies:
+        before_o, before_c = snapshot(seq), snapshot(cp)
+        try:
+            cp.declare_variable("zz_copy")
+            ch0 = sorted(cp._schedule)[0]
+            if not getattr(cp, "is_measured")():
+                cp.delay(16 * 5, ch0)
+        except Exception:
+            pass
+        if snapshot(seq) != before_o:
+            diff = [k for k in before_o if before_o[k] != snapshot(seq)[k]]
+            out.append((f"a call on the copy made through {how} changed the original ({diff})", {"how": how}))
+            break
+        before_c = snapshot(cp)
+        try:
+            seq.declare_variable("zz_orig_" + str(len(seq._variables)))
+        except Exception:
+            pass
+        if snapshot(cp) != before_c:
+            diff = [k for k in before_c if before_c[k] != snapshot(cp)[k]]
+            out.append((f"a call on the original changed the copy made through {how} ({diff})", {"how": how}))
+            break
+    return out
+
+
 def final_C15(seq, cfg, ctx, build_device, rng):
     """phase-drift bookkeeping (drift histories only: every EOM control and EOM pulse asks for the correction, no other phase shifts):
     once the last EOM block is closed, the phase reference of the channel's targets equals, modulo 2 pi, the phase accumulated by the
